@@ -409,6 +409,11 @@ pub fn compare_result(kind: &str, q: &CQuery, pred: &Pred, actual: &Result<Query
             }
             let mut a = actual_elems(r);
             let mut e = exp.elements.clone();
+            if exp.values_unchecked {
+                for x in a.iter_mut().chain(e.iter_mut()) {
+                    x.values.clear();
+                }
+            }
             if exp.unordered {
                 for x in a.iter_mut().chain(e.iter_mut()) {
                     x.values.sort();
